@@ -972,7 +972,7 @@ fn minimise(case: &Case, f: Found) -> (Case, Found) {
 pub fn run_shard(ctx: &ShardCtx, rep: &mut Report) {
     alloc::install();
     let total: u64 = match ctx.tier {
-        Tier::Quick => ctx.scaled(3000) as u64,
+        Tier::Quick => ctx.scaled(8000) as u64,
         Tier::Thorough => ctx.scaled(400_000) as u64,
     };
     let mut minimised: std::collections::BTreeSet<String> = Default::default();
